@@ -24,7 +24,7 @@
 From Coq Require Import ZArith List Bool.
 From V Require Import Base.Int Base.IO Spec.Gregorian.
 From V Require Model.Date Model.Time.
-From V Require Import Model.DateTime Model.C04 Proofs.C04 Proofs.C04Date.
+From V Require Import Model.DateTime Model.C04 Proofs.C04 Proofs.C04Date Proofs.C04Wide.
 Import ListNotations.
 Open Scope Z_scope.
 
@@ -225,9 +225,8 @@ Print Assumptions C04_replace_time_field.
 
 (* year (0) / month (1) / month0 (2) / day (3) / day0 (4) / ordinal (5) / ordinal0 (6): exactly that field of
    the wall-clock date is replaced, time of day kept; None iff no such date exists in the supported years or
-   the instant is refused.  PARTIAL: stated for a nominal wall clock ([in_rng (wall a)]); for a headroom wall
-   clock only the layer theorem C04_replace_date_field_glue and the identity C04_with_year_same are proved
-   (the NaiveDate setters on the two headroom words are covered by the correspondence run only). *)
+   the instant is refused.  This older form is stated for a nominal wall clock ([in_rng (wall a)]); the form
+   over every well-formed date-time is C04_replace_date_field below. *)
 Theorem C04_replace_date_field_partial : forall field a x, dtz_ok a -> in_rng (wall a) = true -> 0 <= field <= 6 ->
   (if field =? 0 then in_i32 x else in_u32 x) = true ->
   match new_dn field (wall a / 86400) x with
@@ -241,6 +240,44 @@ Theorem C04_replace_date_field_partial : forall field a x, dtz_ok a -> in_rng (w
   end.
 Proof. exact with_datefield_spec. Qed.
 Print Assumptions C04_replace_date_field_partial.
+(* ... and for EVERY well-formed date-time, wall clock nominal or in the one-day headroom (Proofs/C04Wide.v:
+   the NaiveDate setters on the two headroom words are evaluated by the kernel, exhaustively up to 400 and
+   symbolically above).  [new_dn_id] is [new_dn] plus the one case where the setter is the identity although the
+   calendar has no such supported date: with_year with the unchanged year of a headroom date.  On a headroom
+   wall clock every other outcome is None (another day of the headroom year is never a supported instant). *)
+Theorem C04_replace_date_field : forall field a x, dtz_ok a -> 0 <= field <= 6 ->
+  (if field =? 0 then in_i32 x else in_u32 x) = true ->
+  match new_dn_id field (wall a / 86400) x with
+  | None => dz_with field a x = Val None
+  | Some n' =>
+      let w' := n' * 86400 + wall a mod 86400 in
+      if keep (w' - dz_off a) (frac (dz_utc a))
+      then exists z, dz_with field a x = Val (Some z) /\ dtz_ok z /\ dz_off z = dz_off a /\
+                     wall z = w' /\ frac (dz_utc z) = frac (dz_utc a)
+      else dz_with field a x = Val None
+  end.
+Proof. exact with_datefield_all. Qed.
+Print Assumptions C04_replace_date_field.
+Theorem C04_new_dn_id_nominal : forall field a x, dtz_ok a -> in_rng (wall a) = true ->
+  new_dn_id field (wall a / 86400) x = new_dn field (wall a / 86400) x.
+Proof. exact new_dn_id_nominal. Qed.
+Print Assumptions C04_new_dn_id_nominal.
+(* the NaiveDate layer on the two headroom dates ([hb] = true: BEFORE_MIN, false: AFTER_MAX): a setter gives no
+   date, the date itself, or another day of the headroom year ([outb]) with the day number of the calendar *)
+Theorem C04_setter_on_headroom_date : forall hb field x, 1 <= field <= 6 -> in_u32 x = true ->
+  exists r, date_setter field (HW hb) x = Val r /\
+  match new_dn field (HN hb) x with
+  | None => r = None
+  | Some n' => exists d', r = Some d' /\ dn d' = n' /\ (d' = HW hb \/ outb hb d' = true)
+  end.
+Proof. exact setter_headroom. Qed.
+Print Assumptions C04_setter_on_headroom_date.
+(* ... and re-resolving a wall clock on such a day never yields a value that passes a range filter *)
+Theorem C04_other_headroom_day_is_refused : forall hb off d t, outb hb d = true -> time_ok t -> off_ok off ->
+  exists r, from_local_datetime off (mk_ndt d t) = Val r /\ escaped off r hb /\
+            (if hb then usecs (mk_ndt d t) - off < TMIN else TMAX < usecs (mk_ndt d t) - off).
+Proof. exact from_local_out. Qed.
+Print Assumptions C04_other_headroom_day_is_refused.
 Theorem C04_replace_date_field_glue : forall field a x l, dtz_ok a -> 1 <= field <= 6 ->
   overflowing_naive_local a = Val l ->
   match ndt_with field l x with
@@ -284,6 +321,27 @@ Theorem C04_sub_days_partial : forall a n, dtz_ok a -> in_rng (wall a) = true ->
   else dz_checked_sub_days a n = Val None.
 Proof. exact sub_days_spec. Qed.
 Print Assumptions C04_sub_days_partial.
+(* ... and for EVERY well-formed date-time (Proofs/DateWide.v: NaiveDate::add_days for the two headroom words,
+   same proof steps as the shared add_days_spec).  Subtracting zero days is the identity also on a headroom wall
+   clock (checked_sub_days has no zero guard: the value itself is re-resolved), hence the [n =? 0] disjunct. *)
+Theorem C04_add_days : forall a n, dtz_ok a -> in_u64 n = true -> n <> 0 ->
+  let n' := wall a / 86400 + n in
+  let w' := n' * 86400 + wall a mod 86400 in
+  if dn_in_range n' && keep (w' - dz_off a) (frac (dz_utc a))
+  then exists z, dz_checked_add_days a n = Val (Some z) /\ dtz_ok z /\ dz_off z = dz_off a /\
+                 wall z = w' /\ frac (dz_utc z) = frac (dz_utc a)
+  else dz_checked_add_days a n = Val None.
+Proof. exact add_days_all. Qed.
+Print Assumptions C04_add_days.
+Theorem C04_sub_days : forall a n, dtz_ok a -> in_u64 n = true ->
+  let n' := wall a / 86400 - n in
+  let w' := n' * 86400 + wall a mod 86400 in
+  if ((n =? 0) || dn_in_range n') && in_rng (w' - dz_off a)
+  then exists z, dz_checked_sub_days a n = Val (Some z) /\ dtz_ok z /\ dz_off z = dz_off a /\
+                 wall z = w' /\ frac (dz_utc z) = frac (dz_utc a)
+  else dz_checked_sub_days a n = Val None.
+Proof. exact sub_days_all. Qed.
+Print Assumptions C04_sub_days.
 Theorem C04_add_days_glue : forall a n l d', dtz_ok a -> n <> 0 -> overflowing_naive_local a = Val l ->
   Date.checked_add_days (nd_date l) n = Val (Some d') -> dateok d' -> dn (nd_date l) <= dn d' ->
   let w' := dn d' * 86400 + wall a mod 86400 in
@@ -321,6 +379,33 @@ Theorem C04_months_partial : forall (add : bool) a m, dtz_ok a -> in_rng (wall a
   end.
 Proof. exact months_spec. Qed.
 Print Assumptions C04_months_partial.
+(* ... and for EVERY well-formed date-time; [month_target_id]: zero months is the identity (the value itself,
+   whatever its wall clock), otherwise [month_target] *)
+Theorem C04_months : forall (add : bool) a m, dtz_ok a -> in_u32 m = true ->
+  let step := if add then dz_checked_add_months a m else dz_checked_sub_months a m in
+  match month_target_id (wall a / 86400) m (if add then m else - m) with
+  | None => step = Val None
+  | Some n' =>
+      let w' := n' * 86400 + wall a mod 86400 in
+      if in_rng (w' - dz_off a)
+      then exists z, step = Val (Some z) /\ dtz_ok z /\ dz_off z = dz_off a /\
+                     wall z = w' /\ frac (dz_utc z) = frac (dz_utc a)
+      else step = Val None
+  end.
+Proof. exact months_all. Qed.
+Print Assumptions C04_months.
+Example C04_headroom_examples :
+  in_rng (wall z_max_p2h) = false /\ in_rng (wall z_min_m2h) = false /\
+  dz_with 1 z_max_p2h 1 = Val (Some z_max_p2h) /\ dz_with 1 z_max_p2h 2 = Val None /\
+  dz_with 0 z_max_p2h 262143 = Val (Some z_max_p2h) /\
+  dz_with 3 z_min_m2h 31 = Val (Some z_min_m2h) /\ dz_with 3 z_min_m2h 30 = Val None /\
+  dz_checked_sub_days z_max_p2h 0 = Val (Some z_max_p2h) /\ dz_checked_add_days z_max_p2h 1 = Val None /\
+  (exists z, dz_checked_sub_days z_max_p2h 1 = Val (Some z) /\ wall z = wall z_max_p2h - 86400) /\
+  (exists z, dz_checked_add_days z_min_m2h 1 = Val (Some z) /\ wall z = wall z_min_m2h + 86400) /\
+  (exists z, dz_checked_sub_months z_max_p2h 1 = Val (Some z) /\ wall z = wall z_max_p2h - 31 * 86400) /\
+  dz_checked_add_months z_max_p2h 1 = Val None.
+Proof. exact headroom_examples. Qed.
+Print Assumptions C04_headroom_examples.
 Theorem C04_add_months_glue : forall a m l d', dtz_ok a -> overflowing_naive_local a = Val l ->
   Date.checked_add_months (nd_date l) m = Val (Some d') -> nominal d' \/ d' = nd_date l ->
   let w' := dn d' * 86400 + wall a mod 86400 in
